@@ -56,7 +56,9 @@ def new_event(ev, o, gam, h=1, **extra):
     e = ev("New", h=h, args=as_args(o), post=dict(EMPTY_POST))
     try:
         s = build(o, gam, **extra)
-        e["post"] = alpha_obj(s, inv_map(gam))
+        vals = list(o["pos"]) + list(o["neg"]) + [0]
+        e["post"] = alpha_obj(s, inv_map(gam, min(vals) - 2, max(vals) + 3) if max(vals) > 35 or min(vals) < -35
+                              else inv_map(gam))
         return s
     except Exception as ex:  # noqa
         e["exc"] = exc_str(ex)
@@ -152,10 +154,10 @@ def step(t, k):
     return t
 
 
-def threshold_event(ev, s, o, m, qs, gam, h=1, extra_targets=()):
+def threshold_event(ev, s, o, m, qs, gam, h=1, extra_targets=(), form=None, only_targets=None):
     """One vectorised threshold_at_<m> query per method, with the counts the same
     object reports at, just below and just above every returned threshold."""
-    rs = sorted(set(targets(o, m, qs)) | set(extra_targets))
+    rs = sorted(set(only_targets)) if only_targets is not None else sorted(set(targets(o, m, qs)) | set(extra_targets))
     e = ev("threshold", h=h, m=m, r=[[f.numerator, f.denominator] for f in rs],
            lin=[], lo=[], hi=[], c={"lin": [], "lo": [], "hi": []},
            lo_is_score=[], hi_is_score=[], alias_same=True, scalar_same=True)
@@ -164,8 +166,9 @@ def threshold_event(ev, s, o, m, qs, gam, h=1, extra_targets=()):
         S = rel_scores(o, m)
         proj = ThrProjector(gam, S)
         fn = getattr(s, "threshold_at_" + m)
+        arg = rf if form is None else form(rf)
         for key, method in METHODS.items():
-            t = np.asarray(fn(rf, method=method), dtype=float)
+            t = np.asarray(fn(arg, method=method), dtype=float)
             if t.shape != rf.shape:
                 raise AssertionError(f"shape {t.shape} for targets {rf.shape}")
             e[key] = [proj(x) for x in t]
@@ -186,6 +189,9 @@ def threshold_event(ev, s, o, m, qs, gam, h=1, extra_targets=()):
             for j in sorted({0, 1, len(rs) // 2, len(rs) - 2, len(rs) - 1} & set(range(len(rs)))):
                 x = fn(float(rf[j]), method=method)
                 ok = ok and np.ndim(x) == 0 and not isinstance(x, np.ndarray) and float(x) == float(t[j])
+                if rs[j].denominator == 1:                      # a Python int target (0, 1, ...)
+                    xi = fn(int(rs[j]), method=method)
+                    ok = ok and np.ndim(xi) == 0 and float(xi) == float(t[j])
             e["scalar_same"] = bool(ok)
     except Exception as ex:  # noqa
         e["exc"] = exc_str(ex)
